@@ -1,6 +1,7 @@
 import Litestream.Model.Follow
 import Litestream.Gen.Follow
 import Litestream.Driver.Plan
+import Litestream.Model.Sidecar
 /-! Driver handlers for follow mode (C16). -/
 namespace Litestream.Driver
 open Litestream Litestream.Follow
@@ -41,7 +42,25 @@ def handleFollowConverge (args : List (String × String)) : String :=
     s!"ok {r.1} polls={r.2}"
   | _, _ => "bad-op"
 
+/-- `sidecar HEX=<content hex>` / `sidecar ABSENT=1` → `ok <txid>` | `err` (`ReadTXIDFile`);
+    `sidecartext T=<txid>` → hex of what `WriteTXIDFile` leaves in the file. -/
+def handleSidecar (args : List (String × String)) : String :=
+  let fmt := fun (r : Option Nat) => match r with | some t => s!"ok {t}" | none => "err"
+  match arg? args "ABSENT", (arg? args "HEX").bind fun s => lnUnhex? s.toList with
+  | some _, _ => fmt (Sidecar.readSidecar none)
+  | none, some c => fmt (Sidecar.readSidecar (some c))
+  | none, none => "bad-op"
+
+def hexOfChars (cs : List Char) : String :=
+  String.ofList (cs.flatMap fun c => [V3Name.hexChar (c.toNat / 16), V3Name.hexChar (c.toNat % 16)])
+
+def handleSidecarText (args : List (String × String)) : String :=
+  match natArg? args "T" with
+  | some t => if t < 2 ^ 64 then hexOfChars (Sidecar.sidecarText t) else "bad-op"
+  | none => "bad-op"
+
 def followHandlers : Handlers :=
-  [("poll", handleFollowPoll), ("resume", handleFollowResume), ("converge", handleFollowConverge)]
+  [("poll", handleFollowPoll), ("resume", handleFollowResume), ("converge", handleFollowConverge),
+   ("sidecar", handleSidecar), ("sidecartext", handleSidecarText)]
 
 end Litestream.Driver
